@@ -15,6 +15,10 @@ pub struct Case {
     /// also run the leak meter on every call that returns
     #[serde(default)]
     pub leak: bool,
+    /// number of CPUs the program runs with (0 = leave the affinity alone);
+    /// the threaded operations size their chunks from it
+    #[serde(default)]
+    pub cpus: usize,
 }
 
 pub struct C13;
@@ -255,24 +259,76 @@ pub fn static_calls() -> Vec<Call> {
     c
 }
 
-pub fn sweep_size() -> u64 {
-    let b = bases();
-    b.iter().map(|x| base_calls(x).len() as u64).sum::<u64>() + static_calls().len() as u64
+/// Calls whose implementation sizes worker-thread chunks from the CPU count.
+fn thread_relevant(c: &Call) -> bool {
+    match c {
+        Call::Op(_) | Call::Pred(1) | Call::Q0(7) => true,
+        Call::Gen(repr, kind, ..) => *repr < 2 && matches!(kind % 14, 2 | 11 | 12),
+        _ => false,
+    }
 }
 
-pub fn sweep_case(mut idx: u64) -> Option<Program> {
+/// Larger bases for the CPU-count segment, so that a worker gets several rows.
+fn wide_bases() -> Vec<Base> {
+    let mut out = vec![];
+    for repr in 0..2_u8 {
+        for n in [5_usize, 7, 8] {
+            let arcs = (0..n).map(|i| (i, (i + 1) % n, 1)).chain((2..n).map(|i| (i, 0, 1))).collect();
+            out.push(Base { repr, order: n, arcs, extra_ids: vec![], drop_ids: vec![] });
+        }
+    }
+    out.push(Base { repr: 1, order: 6, arcs: vec![(0, 9, 1), (9, 3, 1), (5, 12, 1)], extra_ids: vec![9, 12], drop_ids: vec![1] });
+    out
+}
+
+fn cpu_segment() -> Vec<(Program, usize)> {
+    let mut out = vec![];
+    for b in bases().into_iter().chain(wide_bases()) {
+        for c in base_calls(&b).into_iter().filter(thread_relevant) {
+            for k in [1, 2, 3] {
+                out.push((Program { base: b.clone(), calls: vec![c.clone()] }, k));
+            }
+        }
+    }
+    for c in static_calls().into_iter().filter(thread_relevant) {
+        for k in [1, 2, 3] {
+            out.push((
+                Program {
+                    base: Base { repr: 0, order: 1, arcs: vec![], extra_ids: vec![], drop_ids: vec![] },
+                    calls: vec![c.clone()],
+                },
+                k,
+            ));
+        }
+    }
+    out
+}
+
+pub fn sweep_size() -> u64 {
+    let b = bases();
+    b.iter().map(|x| base_calls(x).len() as u64).sum::<u64>() + static_calls().len() as u64 + cpu_segment().len() as u64
+}
+
+pub fn sweep_case(mut idx: u64) -> Option<(Program, usize)> {
     for b in bases() {
         let calls = base_calls(&b);
         if idx < calls.len() as u64 {
-            return Some(Program { base: b, calls: vec![calls[idx as usize].clone()] });
+            return Some((Program { base: b, calls: vec![calls[idx as usize].clone()] }, 0));
         }
         idx -= calls.len() as u64;
     }
     let s = static_calls();
-    s.get(idx as usize).map(|c| Program {
-        base: Base { repr: 0, order: 1, arcs: vec![], extra_ids: vec![], drop_ids: vec![] },
-        calls: vec![c.clone()],
-    })
+    if let Some(c) = s.get(idx as usize) {
+        return Some((
+            Program {
+                base: Base { repr: 0, order: 1, arcs: vec![], extra_ids: vec![], drop_ids: vec![] },
+                calls: vec![c.clone()],
+            },
+            0,
+        ));
+    }
+    idx -= s.len() as u64;
+    cpu_segment().into_iter().nth(idx as usize)
 }
 
 // ---------------------------------------------------------------------------
@@ -562,11 +618,13 @@ impl Prop for C13 {
 
     fn strategy(leg: &str, _tier: Tier) -> BoxedStrategy<Case> {
         let leak = leg.ends_with("leak");
-        program_strategy().prop_map(move |program| Case { program, leak }).boxed()
+        (program_strategy(), prop_oneof![3 => Just(0_usize), 2 => 1..=3_usize, 1 => 4..=16_usize])
+            .prop_map(move |(program, cpus)| Case { program, leak, cpus })
+            .boxed()
     }
 
     fn enum_case(leg: &str, _tier: Tier, idx: u64) -> Option<Case> {
-        sweep_case(idx).map(|program| Case { program, leak: leg.ends_with("leak") })
+        sweep_case(idx).map(|(program, cpus)| Case { program, leak: leg.ends_with("leak"), cpus })
     }
 
     fn shrink(c: &Case) -> Vec<Case> {
@@ -576,18 +634,30 @@ impl Prop for C13 {
             if p.calls.len() > 1 {
                 let mut calls = p.calls.clone();
                 calls.remove(i);
-                out.push(Case { program: Program { base: p.base.clone(), calls }, leak: c.leak });
+                out.push(Case { program: Program { base: p.base.clone(), calls }, leak: c.leak, cpus: c.cpus });
             }
         }
         for i in 0..p.base.arcs.len() {
             let mut base = p.base.clone();
             base.arcs.remove(i);
-            out.push(Case { program: Program { base, calls: p.calls.clone() }, leak: c.leak });
+            out.push(Case { program: Program { base, calls: p.calls.clone() }, leak: c.leak, cpus: c.cpus });
         }
         out
     }
 
     fn check(c: &Case, obs: &mut Obs) -> Verdict {
+        if c.cpus == 0 {
+            return Self::check_inner(c, obs);
+        }
+        let cpus = sys::Cpus::new();
+        let (r, seen) = cpus.with(c.cpus, sys::rot(), || Self::check_inner(c, obs));
+        obs.label(format!("cpus-set={seen}"));
+        r
+    }
+}
+
+impl C13 {
+    fn check_inner(c: &Case, obs: &mut Obs) -> Verdict {
         let p = &c.program;
         let stats = probe::run_program(p)?;
         if c.leak {
